@@ -257,7 +257,8 @@ type agg struct {
 	infra                  []string
 	viol                   []violRun
 	samples                []interface{}
-	wall                   time.Duration
+	wall, maxRunWall       time.Duration
+	retried                int
 	probePairs, probeDiv   int
 }
 
@@ -280,6 +281,12 @@ func scnHash(s *scn.Scenario) string {
 
 func (a *agg) add(b *build, r runOut) {
 	a.runs++
+	if r.wall > a.maxRunWall {
+		a.maxRunWall = r.wall
+	}
+	if r.retried {
+		a.retried++
+	}
 	if r.infra != "" {
 		a.infra = append(a.infra, fmt.Sprintf("run %d (seed %d): %s", r.idx, r.scn.RunSeed, r.infra))
 		return
@@ -453,6 +460,7 @@ func check(b *build, prop, tier string, seed uint64, cfg tierCfg, par int, write
 
 	fmt.Printf("%d simulated runs in %.1fs (%.0f runs/hour), %d non-trivial, %d distinct interleavings, %d steps simulated, %d preemptions, %d forced yields, %d race reports, sites executed %d/%d\n",
 		a.runs, a.wall.Seconds(), float64(a.runs)/a.wall.Hours(), a.nontrivial, len(a.interleavings), a.steps, a.preempt, a.forced, a.races, len(a.sitesHit), len(b.instr.Sites))
+	fmt.Printf("slowest run %.1fs wall (limit %.0fs), %d runs re-executed after a wall-clock timeout\n", a.maxRunWall.Seconds(), runWallLimit.Seconds(), a.retried)
 	if a.probeDiv > 0 {
 		fmt.Printf("WARNING: determinism probe: %d of %d re-executed runs diverged (%s)\n", a.probeDiv, a.probePairs, strings.Join(diverged, ", "))
 	}
